@@ -173,18 +173,39 @@ func Random(r *hx.Rng, opt Options) Desc {
 	}
 	wantMats := opt.Materials == 2 || (opt.Materials == 0 && r.Chance(2, 5))
 	if wantMats {
-		left := prims
-		nr := r.Range(1, 4)
-		for i := 0; i < nr; i++ {
-			c := 0
-			if i == nr-1 {
-				c = left
-			} else if left > 0 && !r.Chance(1, 4) {
-				c = r.Range(0, left)
-			}
-			left -= c
-			d.Mats = append(d.Mats, Mat{Count: c, ID: r.Intn(3)})
-		}
+		d.Mats = randMats(r, prims)
 	}
 	return d
+}
+
+// material range patterns: letters are material identities; a material may RE-OCCUR after another one
+// (a,b,a / a,b,a,b / a,b,c,a ...), which is what SplitOnUniqueMaterials has to merge
+var matPatterns = []string{"a", "ab", "abc", "aa", "aba", "aba", "abab", "abca", "abba", "aaba", "abcb", "abac"}
+
+// randMats draws material ranges for a mesh with prims primitives.  Mostly the ranges cover the
+// primitives exactly and each has at least one primitive (when there are enough); empty ranges, and
+// rarely ranges that cover too many primitives, also occur.
+func randMats(r *hx.Rng, prims int) []Mat {
+	pat := hx.Pick(r, matPatterns)
+	ids := r.Perm(4)
+	counts := make([]int, len(pat))
+	left := prims
+	if prims >= len(pat) && !r.Chance(1, 5) {
+		for i := range counts {
+			counts[i] = 1
+		}
+		left -= len(pat)
+	}
+	for left > 0 {
+		counts[r.Intn(len(counts))]++
+		left--
+	}
+	if r.Chance(1, 25) {
+		counts[len(counts)-1] += r.Range(1, 2) // more primitives announced than present
+	}
+	out := make([]Mat, len(pat))
+	for i, ch := range pat {
+		out[i] = Mat{Count: counts[i], ID: ids[int(ch-'a')]}
+	}
+	return out
 }
